@@ -132,11 +132,21 @@ Record texts := Texts { t_i : text; t_n : text; t_p : text; t_c : text }.
 
 Definition second : Z := 1000000000.
 
+(* [time.Second * time.Duration(raw)] is an int64 product: it wraps around
+   (two's complement) when [raw] seconds do not fit a Duration, i.e. for
+   |raw| > 9 223 372 036 s (~292 years).  [seconds x] is that product;
+   [secs_fit x] is the range on which it is [x * second] (SettingsProofs.v:
+   seconds_fit, and exactly that range for an int64 [x]: seconds_fit_only). *)
+Definition wrap64 (z : Z) : Z :=
+  (z + 9223372036854775808) mod 18446744073709551616 - 9223372036854775808.
+Definition seconds (x : Z) : Z := wrap64 (x * second).
+Definition secs_fit (x : Z) : Prop := Z.abs x <= 9223372036.
+
 (* the order of the getters in the constructor; any error = no watcher *)
 Definition settings_of (v : reading) (ts : texts) : option cfg :=
   match decode v (t_i ts), decode Decimal (t_n ts), decode v (t_p ts), decode v (t_c ts) with
   | Some i, Some n, Some p, Some c =>
-      Some {| cN := n; cP := p * second; cI := i * second; cC := c * second |}
+      Some {| cN := n; cP := seconds p; cI := seconds i; cC := seconds c |}
   | _, _, _, _ => None
   end.
 
